@@ -221,6 +221,8 @@ class MediaRequestBase(RequestHandlerBase):
             moof.mfhd.sequence_number = int(
                 (origin_time // ref_duration_tc) * representation.num_media_segments +
                 mod_segment)
+        # sequence_number is a 32 bit field
+        moof.mfhd.sequence_number &= 0xFFFFFFFF
         diff = None
         if seg_time is not None:
             diff = seg_time - tfdt.base_media_decode_time
